@@ -1,12 +1,23 @@
 // C16 conformance harness: interprets a script of span operations (ndjson on stdin) on real
-// xtl::span objects over exact-size heap memory (a guarded int buffer, a C array, a std::array or a
-// std::vector) and writes, after every call, the call's result and the projection of the memory and
-// of every stacked view (extent, data() - base, size(), size_bytes(), empty(), end() - begin(),
-// elements by operator[], by forward and by reverse iteration).  It contains no oracle.
+// xtl::span objects over exact-size memory (a guarded heap buffer, a C array, a std::array, a
+// std::vector or a user container with data()/size()) and writes, after every call, the call's result
+// and the projection of the memory and of every stacked view (extent, constness of the element type,
+// data() - base, size(), size_bytes(), empty(), end() - begin(), elements by operator[], by forward and
+// by reverse iteration).  It contains no oracle.
 //
-// Built twice by the check: -DTCB_SPAN_NO_CONTRACT_CHECKING ("unchecked") and
-// -DTCB_SPAN_THROW_ON_CONTRACT_VIOLATION ("throwing").  xspan.hpp passes these macros through
-// unchanged to the bundled tcb span (default: terminate unless NDEBUG).
+// The contract-checking mode is NOT chosen here: the check compiles this file with every macro set of the
+// property's configuration axis (nothing, TCB_SPAN_NO_CONTRACT_CHECKING, TCB_SPAN_THROW_ON_CONTRACT_VIOLATION,
+// TCB_SPAN_TERMINATE_ON_CONTRACT_VIOLATION, each with and without NDEBUG, C++14 and C++17) and the script's
+// Reset event names the mode specs/SpanMode.tla expects for that set.  The driver only reports what happened:
+// a value, an exception ("contract" for the header's logic_error, "out_of_range", "other") or - with
+// --isolate, where every call runs in a child process - "terminated" when the child ended in std::terminate
+// or abort.
+//
+//   -DSPAN_ELEM=0 int (default) | 1 signed char | 2 double | 3 a three-byte struct
+//
+// A script the driver cannot follow (a view that does not exist because an earlier call did not do what
+// the script assumed) ends the run with a Desync line and status 3; a crash or a call that does not return
+// (20 s of CPU time) ends it with a Crash line.  The check restarts the driver at the next Reset.
 #include <xtl/xspan.hpp>
 #include "vjson.hpp"
 #include <array>
@@ -14,13 +25,12 @@
 #include <limits>
 #include <type_traits>
 #include <vector>
+#include <sys/time.h>
+#include <sys/wait.h>
+#include <fcntl.h>
 
-#if defined(TCB_SPAN_THROW_ON_CONTRACT_VIOLATION)
-static const char* const BUILD_MODE = "throwing";
-#elif defined(TCB_SPAN_NO_CONTRACT_CHECKING)
-static const char* const BUILD_MODE = "unchecked";
-#else
-#error "build with -DTCB_SPAN_NO_CONTRACT_CHECKING or -DTCB_SPAN_THROW_ON_CONTRACT_VIOLATION"
+#ifndef SPAN_ELEM
+#define SPAN_ELEM 0
 #endif
 
 using xtl::span;
@@ -28,15 +38,75 @@ constexpr std::ptrdiff_t DYN = xtl::dynamic_extent;
 constexpr int MAXE = 5;          // static extents 0..MAXE, static offsets 0..MAXE+1
 constexpr size_t SMAX = std::numeric_limits<size_t>::max();
 
+#if __cplusplus >= 201703L
+constexpr bool CPP17 = true;
+#else
+constexpr bool CPP17 = false;
+#endif
+
+static bool g_child = false;     // inside an --isolate child: nothing may be written to the trace
+
 [[noreturn]] static void bad_script(const char* what, const std::string& s)
 {
     std::fprintf(stderr, "script: %s %s\n", what, s.c_str());
-    std::exit(3);
+    if (!g_child)
+    {
+        std::fflush(stdout);
+        std::string w = std::string(what) + " " + s;
+        for (auto& ch : w) if (ch == '"' || ch == '\\') ch = '\'';
+        std::string l = "\n{\"op\":\"Desync\",\"why\":\"" + w + "\"}\n";
+        if (::write(1, l.c_str(), l.size()) < 0) {}
+    }
+    _exit(3);
 }
+
+// ---------------------------------------------------------------- element types
+struct rgb { signed char r, g, b; };
+inline bool operator==(rgb x, rgb y) { return x.r == y.r; }
+inline bool operator!=(rgb x, rgb y) { return x.r != y.r; }
+inline bool operator<(rgb x, rgb y) { return x.r < y.r; }
+inline bool operator>(rgb x, rgb y) { return x.r > y.r; }
+
+template <class T> struct codec
+{
+    static T to(long long v) { return T(v); }
+    static long long from(T x) { return (long long)x; }
+};
+template <> struct codec<rgb>
+{
+    static rgb to(long long v) { return rgb{ (signed char)v, (signed char)(v / 2), 7 }; }
+    // r when the three bytes belong together, something far away otherwise
+    static long long from(rgb x) { return x.r + 1000LL * (x.g - x.r / 2) + 100000LL * (x.b - 7); }
+};
+
+#if SPAN_ELEM == 0
+using T = int;
+#elif SPAN_ELEM == 1
+using T = signed char;
+#elif SPAN_ELEM == 2
+using T = double;
+#elif SPAN_ELEM == 3
+using T = rgb;
+#else
+#error "SPAN_ELEM must be 0..3"
+#endif
+using CT = const T;
+static T tv(long long v) { return codec<T>::to(v); }
+static long long fv(T x) { return codec<T>::from(x); }
+
+// a user container: data() and size(), nothing else
+struct box
+{
+    using value_type = T;
+    T* p; size_t n;
+    T* data() noexcept { return p; }
+    const T* data() const noexcept { return p; }
+    size_t size() const noexcept { return n; }
+};
 
 template <std::ptrdiff_t V> using ic = std::integral_constant<std::ptrdiff_t, V>;
 template <class S> struct ext_of;
-template <class T, std::ptrdiff_t E> struct ext_of<span<T, E>> { static constexpr std::ptrdiff_t value = E; };
+template <class U, std::ptrdiff_t E> struct ext_of<span<U, E>> { static constexpr std::ptrdiff_t value = E; };
 
 // g++ (not clang++) rejects first<0>() / last<0>(): `return {data(), Count};` with Count == 0 is read as
 // {pointer, null pointer constant} and is ambiguous between the two pointer constructors.  The
@@ -73,6 +143,18 @@ template <class F> static void with_offset(long long v, F&& f)
     if (v == 6) { f(ic<6>{}); return; }
     with_static<0>(v, f);
 }
+// template counts: Lo..5, or 1000000 - d for PTRDIFF_MAX - d (d = 0, 1)
+constexpr std::ptrdiff_t PMAX = std::numeric_limits<std::ptrdiff_t>::max();
+template <int Lo, class F> static void with_count(long long v, F&& f)
+{
+    if (v == 1000000) { f(ic<PMAX>{}); return; }
+    if (v == 999999) { f(ic<PMAX - 1>{}); return; }
+    with_static<Lo>(v, f);
+}
+
+// f(sp) only for views of non-const elements (the call does not exist otherwise)
+template <class S, class F> static std::enable_if_t<!std::is_const<typename S::element_type>::value> if_mutable(S sp, F&& f) { f(sp); }
+template <class S, class F> static std::enable_if_t<std::is_const<typename S::element_type>::value> if_mutable(S, F&&) { bad_script("this call does not exist for a view of const elements", ""); }
 
 // every logged number is an integer < 2^31: sizes beyond 10^9 (a view that escaped its parent) are
 // logged as 1000000000 + min(SIZE_MAX - size, 999999)
@@ -88,31 +170,34 @@ static long long encd(std::ptrdiff_t v)
     return v < 0 ? -1000000000LL : 1000000000LL;
 }
 
-struct view { int ext; int* ptr; size_t size; };
+struct view { int ext; int cst; T* ptr; size_t size; };
 
 struct machine
 {
     static constexpr int G = 2;
-    static constexpr int GPAT = 0x5A5A5A5A;
+    static constexpr int GPAT = 0x5A;
+    bool isolate = false;
+    std::string extra;               // appended to the logged event, outside res and st
 
     // ---- parent memory: always an exact-size heap allocation, so that ASan sees every overrun
     std::string kind = "heap";
     size_t n = 0;
-    int* heap = nullptr;                 // G guard cells | n cells | G guard cells
-    void* carr = nullptr;                // int (*)[n]
-    void* sarr = nullptr;                // std::array<int, n>*
-    std::vector<int>* vec = nullptr;
+    T* heap = nullptr;                   // G guard cells | n cells | G guard cells
+    void* carr = nullptr;                // T (*)[n]
+    void* sarr = nullptr;                // std::array<T, n>*
+    std::vector<T>* vec = nullptr;
+    box* bx = nullptr;
     std::vector<view> views;
 
     template <class F> void with_carray(F&& f)
     {
         switch (n)
         {
-            case 1: f(*static_cast<int (*)[1]>(carr)); return;
-            case 2: f(*static_cast<int (*)[2]>(carr)); return;
-            case 3: f(*static_cast<int (*)[3]>(carr)); return;
-            case 4: f(*static_cast<int (*)[4]>(carr)); return;
-            case 5: f(*static_cast<int (*)[5]>(carr)); return;
+            case 1: f(*static_cast<T (*)[1]>(carr)); return;
+            case 2: f(*static_cast<T (*)[2]>(carr)); return;
+            case 3: f(*static_cast<T (*)[3]>(carr)); return;
+            case 4: f(*static_cast<T (*)[4]>(carr)); return;
+            case 5: f(*static_cast<T (*)[5]>(carr)); return;
         }
         bad_script("C array size outside 1..5:", std::to_string(n));
     }
@@ -120,14 +205,23 @@ struct machine
     {
         switch (n)
         {
-            case 0: f(*static_cast<std::array<int, 0>*>(sarr)); return;
-            case 1: f(*static_cast<std::array<int, 1>*>(sarr)); return;
-            case 2: f(*static_cast<std::array<int, 2>*>(sarr)); return;
-            case 3: f(*static_cast<std::array<int, 3>*>(sarr)); return;
-            case 4: f(*static_cast<std::array<int, 4>*>(sarr)); return;
-            case 5: f(*static_cast<std::array<int, 5>*>(sarr)); return;
+            case 0: f(*static_cast<std::array<T, 0>*>(sarr)); return;
+            case 1: f(*static_cast<std::array<T, 1>*>(sarr)); return;
+            case 2: f(*static_cast<std::array<T, 2>*>(sarr)); return;
+            case 3: f(*static_cast<std::array<T, 3>*>(sarr)); return;
+            case 4: f(*static_cast<std::array<T, 4>*>(sarr)); return;
+            case 5: f(*static_cast<std::array<T, 5>*>(sarr)); return;
         }
         bad_script("std::array size outside 0..5:", std::to_string(n));
+    }
+    // f(object) for the memory object of the current kind (not for the plain heap buffer)
+    template <class F> void with_mem(F&& f)
+    {
+        if (kind == "carray") with_carray(f);
+        else if (kind == "stdarray") with_stdarray(f);
+        else if (kind == "vector") f(*vec);
+        else if (kind == "box") f(*bx);
+        else bad_script("this call needs carray, stdarray, vector or box memory, not", kind);
     }
     void release()
     {
@@ -136,14 +230,16 @@ struct machine
         if (carr) { with_carray([&](auto& a) { delete[] &a; }); carr = nullptr; }
         if (sarr) { with_stdarray([&](auto& a) { delete &a; }); sarr = nullptr; }
         delete vec; vec = nullptr;
+        if (bx) { delete[] bx->p; delete bx; bx = nullptr; }
     }
-    int* base()
+    T* base()
     {
-        int* b = nullptr;
+        T* b = nullptr;
         if (kind == "heap") b = heap + G;
         else if (kind == "carray") with_carray([&](auto& a) { b = a; });
         else if (kind == "stdarray") with_stdarray([&](auto& a) { b = a.data(); });
-        else b = vec->data();
+        else if (kind == "vector") b = vec->data();
+        else b = bx->p;
         return b;
     }
     void make_mem(const std::string& k, const std::vector<long long>& cells)
@@ -152,18 +248,18 @@ struct machine
         kind = k; n = cells.size();
         if (k == "heap")
         {
-            heap = new int[n + 2 * G];
-            for (int i = 0; i < G; ++i) { heap[i] = GPAT; heap[G + n + i] = GPAT; }
+            heap = new T[n + 2 * G];
+            for (int i = 0; i < G; ++i) { heap[i] = tv(GPAT); heap[G + n + i] = tv(GPAT); }
         }
         else if (k == "carray")
         {
             switch (n)
             {
-                case 1: carr = new int[1][1]; break;
-                case 2: carr = new int[1][2]; break;
-                case 3: carr = new int[1][3]; break;
-                case 4: carr = new int[1][4]; break;
-                case 5: carr = new int[1][5]; break;
+                case 1: carr = new T[1][1]; break;
+                case 2: carr = new T[1][2]; break;
+                case 3: carr = new T[1][3]; break;
+                case 4: carr = new T[1][4]; break;
+                case 5: carr = new T[1][5]; break;
                 default: bad_script("C array size outside 1..5:", std::to_string(n));
             }
         }
@@ -171,35 +267,42 @@ struct machine
         {
             switch (n)
             {
-                case 0: sarr = new std::array<int, 0>; break;
-                case 1: sarr = new std::array<int, 1>; break;
-                case 2: sarr = new std::array<int, 2>; break;
-                case 3: sarr = new std::array<int, 3>; break;
-                case 4: sarr = new std::array<int, 4>; break;
-                case 5: sarr = new std::array<int, 5>; break;
+                case 0: sarr = new std::array<T, 0>; break;
+                case 1: sarr = new std::array<T, 1>; break;
+                case 2: sarr = new std::array<T, 2>; break;
+                case 3: sarr = new std::array<T, 3>; break;
+                case 4: sarr = new std::array<T, 4>; break;
+                case 5: sarr = new std::array<T, 5>; break;
                 default: bad_script("std::array size outside 0..5:", std::to_string(n));
             }
         }
-        else if (k == "vector") { vec = new std::vector<int>(); vec->reserve(n); vec->resize(n); vec->shrink_to_fit(); }
+        else if (k == "vector") { vec = new std::vector<T>(); vec->reserve(n); vec->resize(n); vec->shrink_to_fit(); }
+        else if (k == "box") { bx = new box{ new T[n], n }; }
         else bad_script("bad memory kind", k);
-        int* b = base();
-        for (size_t i = 0; i < n; ++i) b[i] = int(cells[i]);
+        T* b = base();
+        for (size_t i = 0; i < n; ++i) b[i] = tv(cells[i]);
     }
 
     // ---- views
     template <class F> void with_span(const view& v, F&& f)
     {
-        with_static<-1>(v.ext, [&](auto e) { constexpr std::ptrdiff_t E = decltype(e)::value; f(span<int, E>(v.ptr, v.size)); });
+        with_static<-1>(v.ext, [&](auto e) {
+            constexpr std::ptrdiff_t E = decltype(e)::value;
+            if (v.cst) f(span<CT, E>(v.ptr, v.size)); else f(span<T, E>(v.ptr, v.size));
+        });
     }
     template <class S> static view as_view(const S& sp)
     {
         constexpr std::ptrdiff_t E = ext_of<S>::value;
-        // the extent the type announces through its public constant
-        static_assert(S::extent == static_cast<typename S::index_type>(E), "extent constant");
-        return view{ int(E), sp.data(), sp.size() };
+        // a static extent beyond the instantiated range (a view the contract check should never have let through) is logged as 999
+        return view{ (E > MAXE ? 999 : int(E)), int(std::is_const<typename S::element_type>::value), const_cast<T*>(sp.data()), sp.size() };
     }
+    // a call that yields a view whose static extent is beyond the instantiated range (a template count of PTRDIFF_MAX that
+    // the contract check let through): the view cannot be kept, the call's outcome is reported as such
+    struct huge_view { size_t size; };
     template <class S> void push(size_t s, const S& sp)
     {
+        if (ext_of<S>::value > MAXE) throw huge_view{ sp.size() };
         view nv = as_view(sp);
         views.resize(s);
         views.push_back(nv);
@@ -217,24 +320,58 @@ struct machine
         if (t == "h") return SMAX - size_t(x.num("v"));
         bad_script("bad size argument kind", t);
     }
-    template <class S> std::string flat(const S& sp)
+    static bool flag(const vj::value& a, const char* k)
     {
-        std::vector<long long> r{ (long long)ext_of<S>::value, sp.data() ? encd(sp.data() - base()) : 0, enc(sp.size()), enc(sp.size_bytes()) };
-        for (size_t i = 0; i < sp.size(); ++i) r.push_back(sp[i]);
-        return vj::ints(r);
+        const vj::value& v = a.at(k);
+        return v.kind == vj::value::BOOL ? v.b : v.i != 0;
     }
+    static std::string one(T x) { return vj::ints(std::vector<long long>{ fv(x) }); }
 
-    template <std::ptrdiff_t E, std::ptrdiff_t O, std::ptrdiff_t C,
-              bool WellFormed = (C != DYN || E == DYN || E - O >= -1)>
+    template <std::ptrdiff_t E, std::ptrdiff_t O, std::ptrdiff_t C>
+    struct wf { static constexpr bool value = (C != DYN || E == DYN || E - O >= -1); };
+
+    template <class S, std::ptrdiff_t O, std::ptrdiff_t C, bool WellFormed = wf<ext_of<S>::value, O, C>::value>
     struct subs
     {
-        static void go(machine& m, size_t s, span<int, E> sp) { m.push(s, sp.template subspan<O, C>()); }
+        static void go(machine& m, size_t s, S sp) { m.push(s, sp.template subspan<O, C>()); }
     };
-    template <std::ptrdiff_t E, std::ptrdiff_t O, std::ptrdiff_t C>
-    struct subs<E, O, C, false>
+    template <class S, std::ptrdiff_t O, std::ptrdiff_t C>
+    struct subs<S, O, C, false>
     {
-        static void go(machine&, size_t, span<int, E>) { bad_script("subspan<O, C>() has an ill-formed return type for this extent", ""); }
+        static void go(machine&, size_t, S) { bad_script("subspan<O, C>() has an ill-formed return type for this extent", ""); }
     };
+    // non-member subspan<O, C>(t): goes through make_span(t), whose extent is N for arrays and dynamic for containers
+    template <class M, std::ptrdiff_t O, std::ptrdiff_t C,
+              bool WellFormed = wf<ext_of<decltype(tcb::make_span(std::declval<M&>()))>::value, O, C>::value>
+    struct nsubs
+    {
+        static void go(machine& m, M& t) { m.push(0, tcb::subspan<O, C>(t)); }
+    };
+    template <class M, std::ptrdiff_t O, std::ptrdiff_t C>
+    struct nsubs<M, O, C, false>
+    {
+        static void go(machine&, M&) { bad_script("subspan<O, C>(t) has an ill-formed return type for this array", ""); }
+    };
+
+    // span<To...>(From): exists only for the same or a dynamic extent and never drops const
+    template <class To, class From, bool OK = std::is_convertible<From, To>::value>
+    struct conv { static void go(machine& m, size_t s, From sp) { To c(sp); m.push(s, c); } };
+    template <class To, class From>
+    struct conv<To, From, false> { static void go(machine&, size_t, From) { bad_script("this span conversion does not exist", ""); } };
+
+#if __cplusplus >= 201703L
+    template <class S> std::string bind_read(S sp, ic<1>) { auto [a] = sp; return vj::ints(std::vector<long long>{ fv(a) }); }
+    template <class S> std::string bind_read(S sp, ic<2>) { auto [a, b] = sp; return vj::ints(std::vector<long long>{ fv(a), fv(b) }); }
+    template <class S> std::string bind_read(S sp, ic<3>) { auto [a, b, c] = sp; return vj::ints(std::vector<long long>{ fv(a), fv(b), fv(c) }); }
+    template <class S> void bind_write(S sp, ic<1>, size_t, T x) { auto [a] = sp; a = x; }
+    template <class S> void bind_write(S sp, ic<2>, size_t i, T x) { auto [a, b] = sp; (i == 0 ? a : b) = x; }
+    template <class S> void bind_write(S sp, ic<3>, size_t i, T x) { auto [a, b, c] = sp; (i == 0 ? a : i == 1 ? b : c) = x; }
+#else
+    template <class S, class I> std::string bind_read(S, I) { bad_script("structured bindings need a C++17 build", ""); }
+    template <class S, class I> void bind_write(S, I, size_t, T) { bad_script("structured bindings need a C++17 build", ""); }
+#endif
+    template <class S, std::ptrdiff_t E> std::string bind_read(S, ic<E>) { bad_script("structured bindings are instantiated for extents 1..3 only", ""); }
+    template <class S, std::ptrdiff_t E> void bind_write(S, ic<E>, size_t, T) { bad_script("structured bindings are instantiated for extents 1..3 only", ""); }
 
     std::string step(const vj::value& e)
     {
@@ -244,119 +381,104 @@ struct machine
         const char* exc = "none";
         try
         {
-            if (op == "Reset")
-            {
-                if (a.str("mode") != BUILD_MODE) bad_script("Reset names a mode this driver was not built in:", a.str("mode"));
-                make_mem("heap", {});
-            }
-            else if (op == "Mem") make_mem(a.str("kind"), a.ints("cells"));
-            else if (op == "FromPtrCount" || op == "FromPtrPair")
+            if (op == "FromPtrCount" || op == "FromPtrPair")
             {
                 size_t po = size_t(a.num("po")), cnt = size_t(a.num("cnt"));
+                bool c = flag(a, "c");
                 if (po + cnt > n) bad_script("pointer range outside the memory", "");
-                int* p = base() + po;
+                T* p = base() + po;
+                const T* cp = p;
                 with_static<-1>(a.num("ext"), [&](auto x) {
                     constexpr std::ptrdiff_t E = decltype(x)::value;
-                    if (op == "FromPtrCount") { span<int, E> sp(p, cnt); this->push(0, sp); }
-                    else { span<int, E> sp(p, p + cnt); this->push(0, sp); }
+                    if (op == "FromPtrCount") { if (c) { span<CT, E> sp(cp, cnt); this->push(0, sp); } else { span<T, E> sp(p, cnt); this->push(0, sp); } }
+                    else { if (c) { span<CT, E> sp(cp, cp + cnt); this->push(0, sp); } else { span<T, E> sp(p, p + cnt); this->push(0, sp); } }
                 });
             }
             else if (op == "FromArray")
             {
                 if (kind != "carray") bad_script("FromArray needs carray memory", "");
                 long long ext = a.num("ext");
+                bool c = flag(a, "c");
                 with_carray([&](auto& arr) {
                     constexpr std::ptrdiff_t N = std::ptrdiff_t(std::extent<std::remove_reference_t<decltype(arr)>>::value);
-                    if (ext == -1) { span<int> sp(arr); this->push(0, sp); }
-                    else if (ext == N) { span<int, N> sp(arr); this->push(0, sp); }
-                    else bad_script("span<int, E>(int (&)[N]) does not exist for E != N", "");
+                    const auto& carr_ = arr;
+                    if (ext == -1) { if (c) { span<CT> sp(carr_); this->push(0, sp); } else { span<T> sp(arr); this->push(0, sp); } }
+                    else if (ext == N) { if (c) { span<CT, N> sp(carr_); this->push(0, sp); } else { span<T, N> sp(arr); this->push(0, sp); } }
+                    else bad_script("span<T, E>(T (&)[N]) does not exist for E != N", "");
                 });
             }
             else if (op == "FromStdArray")
             {
                 if (kind != "stdarray") bad_script("FromStdArray needs stdarray memory", "");
                 long long ext = a.num("ext");
+                bool c = flag(a, "c");
                 with_stdarray([&](auto& arr) {
                     constexpr std::ptrdiff_t N = std::ptrdiff_t(std::tuple_size<std::remove_reference_t<decltype(arr)>>::value);
-                    if (ext == -1) { span<int> sp(arr); this->push(0, sp); }
-                    else if (ext == N) { span<int, N> sp(arr); this->push(0, sp); }
-                    else bad_script("span<int, E>(std::array<int, N>&) does not exist for E != N", "");
+                    const auto& carr_ = arr;
+                    if (ext == -1) { if (c) { span<CT> sp(carr_); this->push(0, sp); } else { span<T> sp(arr); this->push(0, sp); } }
+                    else if (ext == N) { if (c) { span<CT, N> sp(carr_); this->push(0, sp); } else { span<T, N> sp(arr); this->push(0, sp); } }
+                    else bad_script("span<T, E>(std::array<T, N>&) does not exist for E != N", "");
                 });
             }
             else if (op == "FromContainer")
             {
-                if (kind != "vector") bad_script("FromContainer needs vector memory", "");
-                with_static<-1>(a.num("ext"), [&](auto x) {
-                    constexpr std::ptrdiff_t E = decltype(x)::value;
-                    span<int, E> sp(*vec); this->push(0, sp);
-                });
+                bool c = flag(a, "c");
+                auto go = [&](auto& cont) {
+                    const auto& ccont = cont;
+                    with_static<-1>(a.num("ext"), [&](auto x) {
+                        constexpr std::ptrdiff_t E = decltype(x)::value;
+                        if (c) { span<CT, E> sp(ccont); this->push(0, sp); } else { span<T, E> sp(cont); this->push(0, sp); }
+                    });
+                };
+                if (kind == "vector") go(*vec);
+                else if (kind == "box") go(*bx);
+                else bad_script("FromContainer needs vector or box memory", "");
             }
             else if (op == "MakeSpan")
             {
-                if (kind == "carray") with_carray([&](auto& arr) { auto sp = tcb::make_span(arr); this->push(0, sp); });
-                else if (kind == "stdarray") with_stdarray([&](auto& arr) { auto sp = tcb::make_span(arr); this->push(0, sp); });
-                else if (kind == "vector") { auto sp = tcb::make_span(*vec); push(0, sp); }
-                else bad_script("MakeSpan needs carray, stdarray or vector memory", "");
+                bool c = flag(a, "c");
+                with_mem([&](auto& m) { const auto& cm = m; if (c) { auto sp = tcb::make_span(cm); this->push(0, sp); } else { auto sp = tcb::make_span(m); this->push(0, sp); } });
+            }
+            else if (op == "Deduce")
+            {
+#ifdef TCB_SPAN_HAVE_DEDUCTION_GUIDES
+                bool c = flag(a, "c");
+                with_mem([&](auto& m) { const auto& cm = m; if (c) { span sp(cm); this->push(0, sp); } else { span sp(m); this->push(0, sp); } });
+#else
+                bad_script("class template argument deduction needs a C++17 build", "");
+#endif
             }
             else if (op == "Default")
             {
-                if (a.num("ext") == -1) { span<int> sp; val = vj::ints(std::vector<long long>{ sp.data() == nullptr, enc(sp.size()) }); push(0, sp); }
-                else if (a.num("ext") == 0) { span<int, 0> sp; val = vj::ints(std::vector<long long>{ sp.data() == nullptr, enc(sp.size()) }); push(0, sp); }
+                bool c = flag(a, "c");
+                auto rep = [&](auto sp) { val = vj::ints(std::vector<long long>{ sp.data() == nullptr, enc(sp.size()) }); this->push(0, sp); };
+                if (a.num("ext") == -1) { if (c) rep(span<CT>()); else rep(span<T>()); }
+                else if (a.num("ext") == 0) { if (c) rep(span<CT, 0>()); else rep(span<T, 0>()); }
                 else bad_script("no default constructor for this extent", "");
-            }
-            else if (op == "ConstFrom")
-            {
-                const std::string& how = a.str("how");
-                long long ext = a.num("ext");
-                if (how == "stdarray" || how == "make_stdarray")
-                {
-                    if (kind != "stdarray") bad_script("needs stdarray memory", how);
-                    with_stdarray([&](auto& arr) {
-                        const auto& carr_ = arr;
-                        constexpr std::ptrdiff_t N = std::ptrdiff_t(std::tuple_size<std::remove_reference_t<decltype(arr)>>::value);
-                        if (how == "make_stdarray") { auto sp = tcb::make_span(carr_); static_assert(std::is_same<decltype(sp), span<const int, N>>::value, "make_span(const array&)"); val = this->flat(sp); }
-                        else if (ext == -1) { span<const int> sp(carr_); val = this->flat(sp); }
-                        else if (ext == N) { span<const int, N> sp(carr_); val = this->flat(sp); }
-                        else bad_script("span<const int, E>(const std::array<int, N>&) does not exist for E != N", "");
-                    });
-                }
-                else if (how == "container" || how == "make_container")
-                {
-                    if (kind != "vector") bad_script("needs vector memory", how);
-                    const std::vector<int>& cv = *vec;
-                    if (how == "make_container") { auto sp = tcb::make_span(cv); static_assert(std::is_same<decltype(sp), span<const int>>::value, "make_span(const C&)"); val = flat(sp); }
-                    else with_static<-1>(ext, [&](auto x) { constexpr std::ptrdiff_t E = decltype(x)::value; span<const int, E> sp(cv); val = this->flat(sp); });
-                }
-                else if (how == "span" || how == "make_span")
-                {
-                    with_span(src(a), [&](auto sp) {
-                        constexpr std::ptrdiff_t E = ext_of<decltype(sp)>::value;
-                        if (how == "make_span") { auto c = tcb::make_span(sp); static_assert(std::is_same<decltype(c), decltype(sp)>::value, "make_span(span)"); val = this->flat(c); }
-                        else if (ext == -1) { span<const int> c(sp); val = this->flat(c); }
-                        else if (ext == E) { span<const int, E> c(sp); val = this->flat(c); }
-                        else bad_script("span<const int, X>(span<int, E>) does not exist for X not in {E, dynamic}", "");
-                    });
-                }
-                else bad_script("bad ConstFrom kind", how);
             }
             else if (op == "Copy")
             {
                 size_t s = size_t(a.num("s"));
+                const std::string& how = a.str("how");
                 with_span(src(a), [&](auto sp) {
                     using S = decltype(sp);
-                    if (a.str("how") == "ctor") { S c(sp); this->push(s, c); }
-                    else { S c(this->base(), sp.size()); c = sp; this->push(s, c); }     // a different window of the same type, then assigned
+                    if (how == "ctor") { S c(sp); this->push(s, c); }
+                    else if (how == "assign") { S c(this->base(), sp.size()); c = sp; this->push(s, c); }     // a different window of the same type, then assigned
+                    else if (how == "make_span") { auto c = tcb::make_span(sp); this->push(s, c); }
+                    else bad_script("bad copy kind", how);
                 });
             }
             else if (op == "Convert")
             {
                 size_t s = size_t(a.num("s"));
                 long long ext = a.num("ext");
+                bool c = flag(a, "c");
                 with_span(src(a), [&](auto sp) {
-                    constexpr std::ptrdiff_t E = ext_of<decltype(sp)>::value;
-                    if (ext == -1) { span<int> c(sp); this->push(s, c); }
-                    else if (ext == E) { span<int, E> c(sp); this->push(s, c); }
-                    else bad_script("span<int, X>(span<int, E>) does not exist for X not in {E, dynamic}", "");
+                    using S = decltype(sp);
+                    constexpr std::ptrdiff_t E = ext_of<S>::value;
+                    if (ext == -1) { if (c) conv<span<CT>, S>::go(*this, s, sp); else conv<span<T>, S>::go(*this, s, sp); }
+                    else if (ext == E) { if (c) conv<span<CT, E>, S>::go(*this, s, sp); else conv<span<T, E>, S>::go(*this, s, sp); }
+                    else bad_script("span<U, X>(span<T, E>) does not exist for X not in {E, dynamic}", "");
                 });
             }
             else if (op == "First") { size_t s = size_t(a.num("s")); size_t c = arg(a.at("c")); with_span(src(a), [&](auto sp) { this->push(s, sp.first(c)); }); }
@@ -368,38 +490,50 @@ struct machine
                 // non-member first/last/subspan on the memory object itself; arguments are std::ptrdiff_t
                 const std::string& fn = a.str("fn");
                 std::ptrdiff_t o = std::ptrdiff_t(arg(a.at("o"))), c = std::ptrdiff_t(arg(a.at("c")));
-                auto go = [&](auto& t) {
+                with_mem([&](auto& t) {
                     if (fn == "first") this->push(0, tcb::first(t, c));
                     else if (fn == "last") this->push(0, tcb::last(t, c));
                     else if (fn == "subspan") this->push(0, tcb::subspan(t, o, c));
                     else if (fn == "subspan1") this->push(0, tcb::subspan(t, o));
                     else bad_script("bad non-member function", fn);
-                };
-                if (kind == "carray") with_carray(go);
-                else if (kind == "stdarray") with_stdarray(go);
-                else if (kind == "vector") go(*vec);
-                else bad_script("Nm needs carray, stdarray or vector memory", "");
+                });
+            }
+            else if (op == "NmS")
+            {
+                // the template forms first<C>(t), last<C>(t), subspan<O, C>(t)
+                const std::string& fn = a.str("fn");
+                with_mem([&](auto& t) {
+                    using M = std::remove_reference_t<decltype(t)>;
+                    if (fn == "first") with_static<(STATIC_ZERO_COUNT ? 0 : 1)>(a.num("C"), [&](auto c) { constexpr std::ptrdiff_t CC = decltype(c)::value; this->push(0, tcb::first<CC>(t)); });
+                    else if (fn == "last") with_static<(STATIC_ZERO_COUNT ? 0 : 1)>(a.num("C"), [&](auto c) { constexpr std::ptrdiff_t CC = decltype(c)::value; this->push(0, tcb::last<CC>(t)); });
+                    else if (fn == "subspan")
+                        with_offset(a.num("O"), [&](auto o) {
+                            constexpr std::ptrdiff_t OO = decltype(o)::value;
+                            with_static<-1>(a.num("C"), [&](auto c) { constexpr std::ptrdiff_t CC = decltype(c)::value; nsubs<M, OO, CC>::go(*this, t); });
+                        });
+                    else bad_script("bad non-member template function", fn);
+                });
             }
             else if (op == "FirstS")
             {
                 size_t s = size_t(a.num("s"));
-                with_span(src(a), [&](auto sp) { with_static<(STATIC_ZERO_COUNT ? 0 : 1)>(a.num("C"), [&](auto c) { constexpr std::ptrdiff_t CC = decltype(c)::value; this->push(s, sp.template first<CC>()); }); });
+                with_span(src(a), [&](auto sp) { with_count<(STATIC_ZERO_COUNT ? 0 : 1)>(a.num("C"), [&](auto c) { constexpr std::ptrdiff_t CC = decltype(c)::value; this->push(s, sp.template first<CC>()); }); });
             }
             else if (op == "LastS")
             {
                 size_t s = size_t(a.num("s"));
-                with_span(src(a), [&](auto sp) { with_static<(STATIC_ZERO_COUNT ? 0 : 1)>(a.num("C"), [&](auto c) { constexpr std::ptrdiff_t CC = decltype(c)::value; this->push(s, sp.template last<CC>()); }); });
+                with_span(src(a), [&](auto sp) { with_count<(STATIC_ZERO_COUNT ? 0 : 1)>(a.num("C"), [&](auto c) { constexpr std::ptrdiff_t CC = decltype(c)::value; this->push(s, sp.template last<CC>()); }); });
             }
             else if (op == "SubspanS")
             {
                 size_t s = size_t(a.num("s"));
                 with_span(src(a), [&](auto sp) {
-                    constexpr std::ptrdiff_t E = ext_of<decltype(sp)>::value;
+                    using S = decltype(sp);
                     with_offset(a.num("O"), [&](auto o) {
                         constexpr std::ptrdiff_t OO = decltype(o)::value;
-                        with_static<-1>(a.num("C"), [&](auto c) {
+                        with_count<-1>(a.num("C"), [&](auto c) {
                             constexpr std::ptrdiff_t CC = decltype(c)::value;
-                            subs<E, OO, CC>::go(*this, s, sp);
+                            subs<S, OO, CC>::go(*this, s, sp);
                         });
                     });
                 });
@@ -409,31 +543,42 @@ struct machine
                 size_t i = arg(a.at("i"));
                 const std::string& how = a.str("how");
                 if (how == "get")
-                    with_span(src(a), [&](auto sp) { with_static<0>((long long)i, [&](auto nn) { constexpr std::ptrdiff_t NN = decltype(nn)::value; int x = tcb::get<NN>(sp); val = vj::ints(std::vector<long long>{ x }); }); });
+                    with_span(src(a), [&](auto sp) { with_static<0>((long long)i, [&](auto nn) { constexpr std::ptrdiff_t NN = decltype(nn)::value; T x = tcb::get<NN>(sp); val = one(x); }); });
                 else
                 {
                     bool call = how == "call";
-                    with_span(src(a), [&](auto sp) { int x = call ? sp(i) : sp[i]; val = vj::ints(std::vector<long long>{ x }); });
+                    with_span(src(a), [&](auto sp) { T x = call ? sp(i) : sp[i]; val = one(x); });
                 }
             }
-            else if (op == "At") { size_t i = arg(a.at("i")); with_span(src(a), [&](auto sp) { int x = sp.at(i); val = vj::ints(std::vector<long long>{ x }); }); }
-            else if (op == "Front") with_span(src(a), [&](auto sp) { int x = sp.front(); val = vj::ints(std::vector<long long>{ x }); });
-            else if (op == "Back") with_span(src(a), [&](auto sp) { int x = sp.back(); val = vj::ints(std::vector<long long>{ x }); });
+            else if (op == "At") { size_t i = arg(a.at("i")); with_span(src(a), [&](auto sp) { T x = sp.at(i); val = one(x); }); }
+            else if (op == "Front") with_span(src(a), [&](auto sp) { T x = sp.front(); val = one(x); });
+            else if (op == "Back") with_span(src(a), [&](auto sp) { T x = sp.back(); val = one(x); });
+            else if (op == "Bind") with_span(src(a), [&](auto sp) { val = this->bind_read(sp, ic<ext_of<decltype(sp)>::value>{}); });
             else if (op == "Write")
             {
                 const std::string& path = a.str("path");
                 size_t i = size_t(a.num("i"));
-                int x = int(a.num("x"));
-                with_span(src(a), [&](auto sp) {
-                    if (path == "sub") sp[i] = x;
-                    else if (path == "call") sp(i) = x;
-                    else if (path == "at") sp.at(i) = x;
-                    else if (path == "front") sp.front() = x;
-                    else if (path == "back") sp.back() = x;
-                    else if (path == "data") sp.data()[i] = x;
-                    else if (path == "iter") *(sp.begin() + std::ptrdiff_t(i)) = x;
-                    else if (path == "riter") *(sp.rbegin() + std::ptrdiff_t(sp.size() - 1 - i)) = x;
-                    else bad_script("bad write path", path);
+                T x = tv(a.num("x"));
+                with_span(src(a), [&](auto csp) {
+                    if_mutable(csp, [&](auto sp) {
+                        if (path == "sub") sp[i] = x;
+                        else if (path == "call") sp(i) = x;
+                        else if (path == "at") sp.at(i) = x;
+                        else if (path == "front") sp.front() = x;
+                        else if (path == "back") sp.back() = x;
+                        else if (path == "data") sp.data()[i] = x;
+                        else if (path == "iter") *(sp.begin() + std::ptrdiff_t(i)) = x;
+                        else if (path == "riter") *(sp.rbegin() + std::ptrdiff_t(sp.size() - 1 - i)) = x;
+                        else if (path == "get") with_static<0>((long long)i, [&](auto nn) { constexpr std::ptrdiff_t NN = decltype(nn)::value; tcb::get<NN>(sp) = x; });
+                        else if (path == "wbytes")
+                        {
+                            auto b = tcb::as_writable_bytes(sp);
+                            const tcb::byte* from = reinterpret_cast<const tcb::byte*>(&x);
+                            for (size_t k = 0; k < sizeof(T); ++k) b[i * sizeof(T) + k] = from[k];
+                        }
+                        else if (path == "sb") this->bind_write(sp, ic<ext_of<decltype(sp)>::value>{}, i, x);
+                        else bad_script("bad write path", path);
+                    });
                 });
             }
             else if (op == "Cmp")
@@ -456,28 +601,110 @@ struct machine
                         const unsigned char* p = reinterpret_cast<const unsigned char*>(b.data());
                         val = vj::ints(std::vector<long long>{ (long long)EB, p ? encd(p - reinterpret_cast<const unsigned char*>(this->base())) : 0, enc(b.size()) });
                     };
-                    if (w) rep(tcb::as_writable_bytes(sp)); else rep(tcb::as_bytes(sp));
+                    if (w) if_mutable(sp, [&](auto m) { rep(tcb::as_writable_bytes(m)); }); else rep(tcb::as_bytes(sp));
                 });
             }
             else bad_script("unknown op", op);
         }
-#if defined(TCB_SPAN_THROW_ON_CONTRACT_VIOLATION)
-        catch (const tcb::contract_violation_error&) { exc = "contract"; }
-#endif
+        catch (const huge_view&) { exc = "view_of_huge_extent"; }
         catch (const std::out_of_range&) { exc = "out_of_range"; }
+        catch (const std::logic_error&) { exc = "contract"; }      // tcb::contract_violation_error exists in throwing builds only
         catch (const std::exception&) { exc = "other"; }
         return std::string("{\"exc\":\"") + exc + "\",\"val\":" + (std::strcmp(exc, "none") ? "[]" : val) + "}";
+    }
+
+    // ---- one call in a child process: the child reports the result, the views and the cells; a child that ends in
+    // std::terminate or abort is the call's result "terminated" and leaves everything as it was
+    static void child_terminate() { _exit(42); }
+    static void child_abort(int) { _exit(43); }
+    static bool read_all(int fd, void* p, size_t len)
+    {
+        char* c = static_cast<char*>(p);
+        while (len) { ssize_t r = ::read(fd, c, len); if (r <= 0) return false; c += r; len -= size_t(r); }
+        return true;
+    }
+    static void write_all(int fd, const void* p, size_t len)
+    {
+        const char* c = static_cast<const char*>(p);
+        while (len) { ssize_t r = ::write(fd, c, len); if (r <= 0) _exit(44); c += r; len -= size_t(r); }
+    }
+    [[noreturn]] static void die(const std::string& why)
+    {
+        std::fflush(stdout);
+        vj::crash_line(why.c_str());
+        _exit(0);
+    }
+    std::string step_isolated(const vj::value& e)
+    {
+        std::fflush(stdout);
+        int fd[2];
+        if (::pipe(fd) != 0) die("pipe");
+        pid_t pid = ::fork();
+        if (pid < 0) die("fork");
+        if (pid == 0)
+        {
+            g_child = true;
+            ::close(fd[0]);
+            int nul = ::open("/dev/null", O_WRONLY);
+            if (nul >= 0) ::dup2(nul, 1);
+            std::set_terminate(child_terminate);
+            std::signal(SIGABRT, child_abort);
+            arm_watchdog();
+            std::string res = step(e);
+            size_t len = res.size(), nv = views.size();
+            write_all(fd[1], &len, sizeof len); write_all(fd[1], res.data(), len);
+            write_all(fd[1], &nv, sizeof nv); if (nv) write_all(fd[1], views.data(), nv * sizeof(view));
+            if (n) write_all(fd[1], base(), n * sizeof(T));
+            _exit(0);
+        }
+        ::close(fd[1]);
+        std::string res;
+        std::vector<view> nviews;
+        std::vector<T> cells(n);
+        size_t len = 0, nv = 0;
+        bool ok = read_all(fd[0], &len, sizeof len) && len < 100000;
+        if (ok) { res.resize(len); ok = read_all(fd[0], &res[0], len); }
+        ok = ok && read_all(fd[0], &nv, sizeof nv) && nv < 1000;
+        if (ok && nv) { nviews.resize(nv); ok = read_all(fd[0], nviews.data(), nv * sizeof(view)); }
+        if (ok && n) ok = read_all(fd[0], cells.data(), n * sizeof(T));
+        ::close(fd[0]);
+        int st = 0;
+        ::waitpid(pid, &st, 0);
+        int code = WIFEXITED(st) ? WEXITSTATUS(st) : -1;
+        if (ok && code == 0)
+        {
+            views = nviews;
+            T* b = base();
+            for (size_t i = 0; i < n; ++i) b[i] = cells[i];
+            return res;
+        }
+        // how the child ended is logged next to the result (not compared: the property says "rejected")
+        if (code == 42) { extra = ",\"by\":\"terminate\""; return "{\"exc\":\"terminated\",\"val\":[]}"; }
+        if (code == 43) { extra = ",\"by\":\"abort\""; return "{\"exc\":\"terminated\",\"val\":[]}"; }
+        if (code == 3) bad_script("(in the child process, see stderr)", "");
+        die(WIFSIGNALED(st) ? "child killed by signal " + std::to_string(WTERMSIG(st)) : "child ended with status " + std::to_string(code));
+    }
+
+    static void on_watchdog(int) { std::fflush(stdout); if (!g_child) vj::crash_line("hang: 20 s of CPU time in one call"); _exit(g_child ? 45 : 0); }
+    static void arm_watchdog()
+    {
+        std::signal(SIGVTALRM, on_watchdog);
+        itimerval tv{};
+        tv.it_value.tv_sec = 20;
+        ::setitimer(ITIMER_VIRTUAL, &tv, nullptr);
     }
 
     std::string proj_view(const view& v)
     {
         vj::out o;
-        int* b = base();
+        T* b = base();
         bool null = v.ptr == nullptr;
         // is the window inside the parent?  (decides only whether the harness may read the elements)
         bool sane = null ? v.size == 0 : (v.ptr >= b && v.ptr <= b + n && v.size <= size_t((b + n) - v.ptr));
         with_span(v, [&](auto sp) {
-            o.kv("ext", (long long)ext_of<decltype(sp)>::value);
+            using S = decltype(sp);
+            o.kv("ext", (long long)ext_of<S>::value);
+            o.kb("c", std::is_const<typename S::element_type>::value);
             o.kv("off", null ? 0 : encd(sp.data() - b));
             o.kv("size", enc(sp.size()));
             o.kv("bytes", enc(sp.size_bytes()));
@@ -486,9 +713,9 @@ struct machine
             std::vector<long long> el, fwd, rev;
             if (sane)
             {
-                for (size_t i = 0; i < sp.size(); ++i) el.push_back(sp[i]);
-                for (auto it = sp.cbegin(); it != sp.cend(); ++it) fwd.push_back(*it);
-                for (auto it = sp.crbegin(); it != sp.crend(); ++it) rev.push_back(*it);
+                for (size_t i = 0; i < sp.size(); ++i) el.push_back(fv(sp[i]));
+                for (auto it = sp.cbegin(); it != sp.cend(); ++it) fwd.push_back(fv(*it));
+                for (auto it = sp.crbegin(); it != sp.crend(); ++it) rev.push_back(fv(*it));
             }
             o.kints("elems", el).kints("fwd", fwd).kints("rev", rev);
         });
@@ -503,26 +730,55 @@ struct machine
         {
             if (line.empty()) continue;
             vj::value e = vj::parse(line);
-            std::string res = step(e);
-            int* b = base();
+            const std::string& op = e.str("op");
+            std::string res;
+            extra.clear();
+            arm_watchdog();
+            if (op == "Reset") { make_mem("heap", {}); res = "{\"exc\":\"none\",\"val\":[]}"; }
+            else if (op == "Mem") { make_mem(e.at("a").str("kind"), e.at("a").ints("cells")); res = "{\"exc\":\"none\",\"val\":[]}"; }
+            else res = isolate ? step_isolated(e) : step(e);
+            T* b = base();
             std::vector<long long> mem;
-            for (size_t i = 0; i < n; ++i) mem.push_back(b[i]);
+            for (size_t i = 0; i < n; ++i) mem.push_back(fv(b[i]));
             bool guard = true;
-            if (kind == "heap") for (int i = 0; i < G; ++i) guard = guard && heap[i] == GPAT && heap[G + n + i] == GPAT;
+            if (kind == "heap") for (int i = 0; i < G; ++i) guard = guard && fv(heap[i]) == GPAT && fv(heap[G + n + i]) == GPAT;
             std::string vs = "[";
             for (size_t i = 0; i < views.size(); ++i) { if (i) vs += ','; vs += proj_view(views[i]); }
             vs += "]";
             std::string head = line.substr(0, line.rfind('}'));
             std::string st = "{\"mem\":" + vj::ints(mem) + ",\"guard\":" + (guard ? "true" : "false") + ",\"views\":" + vs + "}";
-            std::fputs((head + ",\"res\":" + res + ",\"st\":" + st + "}\n").c_str(), stdout);
+            std::fputs((head + extra + ",\"res\":" + res + ",\"st\":" + st + "}\n").c_str(), stdout);
         }
         release();
         return 0;
     }
 };
 
-int main()
+static int caps()
 {
+    vj::out o;
+    o.kb("cpp17", CPP17);
+    o.kb("static_zero", STATIC_ZERO_COUNT);
+    o.kv("esz", (long long)sizeof(T));
+#ifdef TCB_SPAN_HAVE_DEDUCTION_GUIDES
+    o.kb("ctad", true);
+#else
+    o.kb("ctad", false);
+#endif
+    // not in P0122R7 (its std::array constructors name array<value_type, N>); recorded, never required
+    o.kb("from_array_of_const", std::is_constructible<span<CT>, std::array<CT, 3>&>::value);
+    std::puts(o.obj().c_str());
+    return 0;
+}
+
+int main(int argc, char** argv)
+{
+    machine m;
+    for (int i = 1; i < argc; ++i)
+    {
+        if (!std::strcmp(argv[i], "--caps")) return caps();
+        if (!std::strcmp(argv[i], "--isolate")) m.isolate = true;
+    }
     vj::install_crash_handlers();
-    return machine().run();
+    return m.run();
 }
